@@ -572,6 +572,17 @@ def rp(spec, st, sc):
         if len(data) % group:
             raise Reject("length-not-multiple-of-group")
         return rp(spec[3], RS(_rot(data, amount, group, True)), sc)
+    if k == "pointer":
+        off = evaluate(spec[1], sc)
+        save = st.pos
+        target = off - st.base if off >= 0 else st.end + off
+        if target < 0 or target > st.end:
+            raise Reject("eof")
+        st.pos = target
+        try:
+            return rp(spec[2], st, sc)
+        finally:
+            st.pos = save
     if k == "compressed":
         data = st.read_all()
         try:
@@ -583,13 +594,28 @@ def rp(spec, st, sc):
     raise ValueError("refmodel.rp: unknown kind %r" % k)
 
 
+TRACE = None      # when set to a list, every named member parsed is recorded in document order as
+_PATH = []        # [path tuple, start (absolute stream units), end, value, kind]
+
+
 def _member(fn, name, sub, st, sc):
+    entry = None
+    if TRACE is not None and name:
+        _PATH.append(name)
+        entry = [tuple(_PATH), st.tell(), None, None, sub[0]]
+        TRACE.append(entry)
     try:
-        return fn(sub, st, sc)
+        v = fn(sub, st, sc)
+        if entry is not None:
+            entry[2], entry[3] = st.tell(), v
+        return v
     except Reject as e:
         if name:
             e.path = (name,) + e.path
         raise
+    finally:
+        if entry is not None:
+            _PATH.pop()
 
 
 def _len(e, sc):
@@ -1058,6 +1084,8 @@ def rb(spec, v, sc):
         if len(data) % group:
             raise Reject("length-not-multiple-of-group")
         return _rot(data, amount, group, False), ret
+    if k == "pointer":
+        return b"", v       # (the pointed-to bytes live elsewhere; the reference encodings do not patch them in)
     if k == "compressed":
         data, ret = rb(spec[1], v, sc)
         lib = CODECS[spec[2]]
@@ -1089,6 +1117,18 @@ def _bitwise_build(sub, v, sc):
 # ---------------------------------------------------------------------------------------------
 # public API
 # ---------------------------------------------------------------------------------------------
+def ref_trace(spec, data, kw=None, start=0):
+    """parse and return (value, end, trace of named members)"""
+    global TRACE
+    TRACE = []
+    del _PATH[:]
+    try:
+        v, end = ref_parse(spec, data, kw, start)
+        return v, end, TRACE
+    finally:
+        TRACE = None
+
+
 def ref_parse(spec, data, kw=None, start=0):
     st = RS(data, start)
     sc = top_scope(kw, "parse")
